@@ -2,13 +2,17 @@
 mod gen_dispatch;
 mod manual;
 mod manual_c13b;
+mod manual_c19;
+mod manual_c11;
+mod manual_c16;
+mod manual_c20;
 mod wire;
 use std::io::{BufRead, Write};
 use std::panic::{catch_unwind, AssertUnwindSafe};
 use wire::Args;
 
 /// contributed manual op tables: add `mod manual_<tag>;` above and `manual_<tag>::dispatch` here
-pub static CONTRIB: &[fn(&str, &str, &mut Args) -> Option<String>] = &[manual_c13b::dispatch];
+pub static CONTRIB: &[fn(&str, &str, &mut Args) -> Option<String>] = &[manual_c13b::dispatch, manual_c19::dispatch, manual_c11::dispatch, manual_c16::dispatch, manual_c20::dispatch];
 
 fn main() {
     std::panic::set_hook(Box::new(|_| {}));
